@@ -22,16 +22,25 @@ pure — that is what the harness measures for every executed op (observed write
                                                              (GIVEN op.isPure and Admissible, i.e. the op
                                                              wrote nothing: the whole reachable sub-store
                                                              — contents and shape — is the old one)
-  repeating a deterministic evaluation gives the same        repeat_eval_same_result  (GIVEN additionally: the
-                                                             result reads only the reachable sub-store — observed)
+  repeating a deterministic evaluation gives the same        repeat_eval_same_result_partial  (PARTIAL: `Effect` has no
+                                                             result component; proven: the input of the second
+                                                             evaluation is the input of the first; GIVEN: the result
+                                                             reads only the reachable sub-store — observed)
   fitting one model never changes another                    fit_frame_disjoint, fit_frame_disjoint_reach
                                                              (GIVEN Admissible and no shared MUTABLE object),
     … for every interleaving of any length                   interleaving_frame (per-step separation, as measured),
-                                                             interleaving_static (initial separation + no capture)
+                                                             interleaving_static (initial separation in the sense of
+                                                             fit_frame_disjoint: no shared MUTABLE object; + no
+                                                             capture), interleaving_static_no_shared_object (corollary).
+                                                             The driver checks each step on an independent store
+                                                             (PER-STEP ONLY): that step k+1 starts from `apply` of
+                                                             step k is the harness' bookkeeping, not a driver check.
   getter results share no mutable state                      getter_fresh (GIVEN hfresh2: every mutable object of
                                                              the second result was allocated by the second call —
-                                                             measured against a gc snapshot)
-  conditional fit keeps its template                         cond_fit_keeps_template, cond_fit_copies_fresh
+                                                             measured against a gc snapshot), getter_fresh_checked
+                                                             (hfresh2 from the driver's `getterpair` Booleans)
+  conditional fit keeps its template                         cond_fit_keeps_template (GIVEN the template exists),
+                                                             condFit_length, cond_fit_copies_fresh
                                                              (about the model function `condFit true`, the deep-copy
                                                              loop of ConditionalDistribution.fit; tied to the code by
                                                              the `condfit` correspondence on every fit),
@@ -40,7 +49,8 @@ pure — that is what the harness measures for every executed op (observed write
   the Boolean checks the driver evaluates on the harness'    reachList_sound, closedB_complete, wfB_sound, liveB_sound,
   id()-graphs imply the hypotheses above                     admissibleB_sound, effWFB_sound, noCaptureB_sound,
                                                              touchedB_false_sound, sharedMut_nil_sound,
-                                                             sharedAny_nil_sound, freshResultB_sound
+                                                             sharedAny_nil_sound, sharedMutList_nil_sound,
+                                                             freshResultB_sound
 
 What is *observed* and not proven: that each real entry point has the effect shape the footprint
 demands (the harness measures the write set of every executed op and the driver checks
@@ -196,7 +206,20 @@ theorem admissible_pure_no_writes {s : Store} {op : Op} {e : Effect} (hp : op.is
     have := ha w (by rw [hws]; exact List.mem_cons_self ..)
     cases op <;> simp_all [footprint, Op.isPure]
 
-/-- **eval_frame.** After any evaluation op (eval, contour, design, plot, save, deepcopy, getter)
+/-- for a pure op, `Admissible` says exactly "the effect writes nothing" (the footprint of a pure op
+is empty): `hp` and `ha` of `eval_frame` together are `e.writes = []` -/
+theorem admissible_pure_iff_no_writes {s : Store} {op : Op} {e : Effect} (hp : op.isPure = true) :
+    Admissible s op e ↔ e.writes = [] := by
+  constructor
+  · exact admissible_pure_no_writes hp
+  · intro h w hw
+    rw [h] at hw
+    exact absurd hw List.not_mem_nil
+
+/-- **eval_frame.** (Content: `hp` + `ha` are together `e.writes = []`, see
+`admissible_pure_iff_no_writes`; the theorem is the frame lemma `frame_get` for an allocation-only
+effect: allocation does not disturb what existed. That the real op wrote nothing is MEASURED.)
+After any evaluation op (eval, contour, design, plot, save, deepcopy, getter)
 whose effect respects the declared footprint, every object reachable from any set of roots
 (live models, caller arrays, contours) has the content it had before. -/
 theorem eval_frame {s : Store} {op : Op} {e : Effect} {roots : List ObjId}
@@ -212,11 +235,15 @@ theorem eval_frame_reach {s : Store} {op : Op} {e : Effect} {roots : List ObjId}
   have hn := admissible_pure_no_writes hp ha
   exact frame_reach hwf hl (by simp [hn]) o
 
-/-- **repeat_eval_same_result.** Any observation that reads only the sub-store reachable from
-its arguments gives the same value before and after an evaluation op — in particular the second
+/-- **repeat_eval_same_result_partial.** Any observation that reads only the sub-store reachable
+from its arguments gives the same value before and after an evaluation op — in particular the second
 of two identical evaluations sees what the first one saw.
-(That the real entry points read nothing else — no global RNG, no cache — is observed per run.) -/
-theorem repeat_eval_same_result {α : Type} {s : Store} {op : Op} {e : Effect} {roots : List ObjId}
+PARTIAL: `Effect` has no result component, so "repeating a deterministic evaluation returns identical
+results" is not stated; what is proven is the one-line consequence of `eval_frame` that the INPUT of a
+second evaluation (everything reachable from its arguments) is the input of the first. That the
+result is a function of that input only (`hlocal`: no global RNG, no cache, no clock) is assumed here
+and observed per run by evaluating twice. -/
+theorem repeat_eval_same_result_partial {α : Type} {s : Store} {op : Op} {e : Effect} {roots : List ObjId}
     (hwf : WF s) (hl : Live s roots) (hp : op.isPure = true) (ha : Admissible s op e)
     (obs : (ObjId → Option Obj) → α)
     (hlocal : ∀ g g' : ObjId → Option Obj, (∀ o, Reach s roots o → g o = g' o) → obs g = obs g') :
@@ -317,14 +344,20 @@ theorem reach_after_fit {s : Store} {fitted fr : List ObjId}
       · exact Or.inl h
       · exact Or.inr (hsub _ h)
 
-/-- **interleaving_static** (the lifted form of `fit_frame_disjoint`). Let `fitted` be the models
-that are ever fitted and `B` anything else (another model, a caller array). If initially nothing is
-reachable from both, then after EVERY interleaving of evaluation ops and no-capture fits of models
-in `fitted`, of ANY length, each object reachable from `B` has its initial content and `B`
-reaches the same objects. -/
+/-- `isMut` only looks at the object's content -/
+theorem isMut_congr {s s' : Store} {o : ObjId} (h : s'.get o = s.get o) : s'.isMut o = s.isMut o := by
+  simp only [Store.isMut, h]
+
+/-- **interleaving_static** (the lifted form of `fit_frame_disjoint`, SAME separation hypothesis).
+Let `fitted` be the models that are ever fitted and `B` anything else (another model, a caller
+array). If initially no *mutable* object is reachable from both (shared immutable objects - tuples,
+module-level constants - are allowed, exactly as in `fit_frame_disjoint` and as `sharedMut = []`
+measures), then after EVERY interleaving of evaluation ops and no-capture fits of models in
+`fitted`, of ANY length, each object reachable from `B` has its initial content and `B` reaches the
+same objects. -/
 theorem interleaving_static {fitted rootsB : List ObjId} (steps : List (Op × Effect)) :
     ∀ {s : Store}, WF s → Live s fitted → Live s rootsB →
-      (∀ o, Reach s fitted o → ¬ Reach s rootsB o) → StaticOK fitted s steps →
+      (∀ o, Reach s fitted o → Reach s rootsB o → s.isMut o = false) → StaticOK fitted s steps →
       (∀ o, Reach s rootsB o → (s.run (steps.map (·.2))).get o = s.get o) ∧
       (∀ o, Reach (s.run (steps.map (·.2))) rootsB o ↔ Reach s rootsB o) := by
   induction steps with
@@ -340,10 +373,13 @@ theorem interleaving_static {fitted rootsB : List ObjId} (steps : List (Op × Ef
       | fit m ds args =>
         rw [hst] at hf hop
         simp only [footprint] at hf
-        exact hsep _ (reach_mono_roots hop.1 hf.1) hr
+        have h2 := hsep _ (reach_mono_roots hop.1 hf.1) hr
+        rw [hf.2] at h2
+        exact Bool.noConfusion h2
       | _ => rw [hst] at hf; exact hf
     -- separation is preserved
-    have hsep' : ∀ o, Reach (s.apply st.2) fitted o → ¬ Reach (s.apply st.2) rootsB o := by
+    have hsep' : ∀ o, Reach (s.apply st.2) fitted o → Reach (s.apply st.2) rootsB o →
+        (s.apply st.2).isMut o = false := by
       intro o hA hB
       have hB' := (frame_reach hwf hlB hw o).mp hB
       have hfreshOrOld : s.next ≤ o ∨ Reach s fitted o := by
@@ -358,7 +394,8 @@ theorem interleaving_static {fitted rootsB : List ObjId} (steps : List (Op × Ef
           exact (frame_reach hwf hlA (by simp [hnw]) o).mp hA
       rcases hfreshOrOld with h | h
       · have := reach_lt hwf hlB hB'; omega
-      · exact hsep o h hB'
+      · rw [isMut_congr (frame_get hwf hlB hw hB')]
+        exact hsep o h hB'
     have ih' := ih (wf_apply hwf hew) (live_apply hlA) (live_apply hlB) hsep' hrest
     simp only [List.map_cons, Store.run]
     constructor
@@ -369,11 +406,23 @@ theorem interleaving_static {fitted rootsB : List ObjId} (steps : List (Op × Ef
       rw [ih'.2 o]
       exact frame_reach hwf hlB hw o
 
+/-- the old, stronger-hypothesis form (NO shared object at all, not even an immutable one): a
+corollary, kept because `sharedAny = []` is also measured -/
+theorem interleaving_static_no_shared_object {fitted rootsB : List ObjId} (steps : List (Op × Effect))
+    {s : Store} (hwf : WF s) (hlA : Live s fitted) (hlB : Live s rootsB)
+    (hsep : ∀ o, Reach s fitted o → ¬ Reach s rootsB o) (hok : StaticOK fitted s steps) :
+    (∀ o, Reach s rootsB o → (s.run (steps.map (·.2))).get o = s.get o) ∧
+    (∀ o, Reach (s.run (steps.map (·.2))) rootsB o ↔ Reach s rootsB o) :=
+  interleaving_static steps hwf hlA hlB (fun o hA hB => absurd hB (hsep o hA)) hok
+
 /-! ### clause 3: getter results are fresh -/
 
 /-- **getter_fresh.** Two successive getter calls (effects within the getter footprint, i.e.
 allocation only). If every mutable object of the second result was allocated by the second
-call, then no mutable object is reachable from both results. -/
+call (`hfresh2` - this is most of the conclusion; what the theorem adds is that the FIRST result,
+being reachable before the second call, cannot contain an object allocated by it, because the second
+call writes nothing), then no mutable object is reachable from both results.
+`getter_fresh_checked` discharges `hfresh2` from the Boolean the driver evaluates. -/
 theorem getter_fresh {s : Store} {k1 k2 : Nat} {e1 e2 : Effect} {r1 r2 : ObjId}
     (hwf : WF s) (hw1 : EffWF s e1) (_ha1 : Admissible s (.getter k1) e1)
     (hr1 : r1 < (s.apply e1).next)
@@ -415,12 +464,44 @@ theorem condFit_copy_get_old (ps : List (List Val)) :
       simp only [Store.get, Store.next] at ho ⊢
       exact List.getElem?_append_left ho
 
-/-- **cond_fit_keeps_template.** With a deep copy per interval the template (and every other
-object that existed) has, after fitting any number of intervals to any fitted values, exactly
-the content it had before. -/
-theorem cond_fit_keeps_template (s : Store) (t : ObjId) (ps : List (List Val))
-    (ht : t < s.next) : (condFit true s t ps).1.get t = s.get t :=
-  condFit_copy_get_old ps s t t ht
+/-- the number of per-interval distributions is the number of intervals as soon as the template
+exists (for a template id that is not allocated `condFit` returns `(s, [])` at once: that default is
+NOT the code's behaviour and is excluded by `hg` below) -/
+theorem condFit_length (b : Bool) (ps : List (List Val)) :
+    ∀ (s : Store) (t : ObjId) (tob : Obj), s.get t = some tob →
+      (condFit b s t ps).2.length = ps.length := by
+  induction ps with
+  | nil => intro s t tob _; simp [condFit]
+  | cons p ps ih =>
+    intro s t tob hg
+    have hlt := get_some_lt s t tob hg
+    simp only [condFit, hg]
+    cases b with
+    | true =>
+      simp only [if_true, List.length_cons, Nat.add_right_cancel_iff]
+      apply ih _ t tob
+      rw [get_write_ne _ _ t (by simp only; omega)]
+      simp only [Store.get, Store.next] at hlt ⊢
+      rw [List.getElem?_append_left hlt]
+      exact hg
+    | false =>
+      simp only [Bool.false_eq_true, if_false, List.length_cons, Nat.add_right_cancel_iff]
+      apply ih _ t { tob with fields := p }
+      simp only [Store.write, Store.get, Store.next] at hlt ⊢
+      rw [List.getElem?_set_self hlt]
+
+/-- **cond_fit_keeps_template.** For a template that EXISTS (`hg`; without it the statement would
+hold only through the model's `none => (s, [])` default), with a deep copy per interval: after
+fitting any number of intervals to any fitted values the template still has exactly its content
+`tob`, one distribution per interval was produced (the loop really ran), and every other object
+that existed is unchanged too. -/
+theorem cond_fit_keeps_template (s : Store) (t : ObjId) (tob : Obj) (ps : List (List Val))
+    (hg : s.get t = some tob) :
+    (condFit true s t ps).1.get t = some tob ∧
+    (condFit true s t ps).2.length = ps.length ∧
+    ∀ o, o < s.next → (condFit true s t ps).1.get o = s.get o := by
+  refine ⟨?_, condFit_length true ps s t tob hg, fun o ho => condFit_copy_get_old ps s t o ho⟩
+  rw [condFit_copy_get_old ps s t t (get_some_lt s t tob hg), hg]
 
 /-- the per-interval distributions are fresh, pairwise different objects, none of them the template -/
 theorem cond_fit_copies_fresh (ps : List (List Val)) :
@@ -634,6 +715,36 @@ theorem freshResultB_sound (s : Store) (e : Effect) (r : ObjId)
   simp only [freshResultB, List.all_eq_true, List.mem_filter, decide_eq_true_eq] at h
   exact h o ⟨closedB_complete _ [r] _ hc o hr, hm⟩
 
+/-- **getter_fresh_checked**: `getter_fresh` with `hfresh2` discharged by what the driver's
+`getterpair` op evaluates (`cert` and `fresh2`): two allocation-only getter calls whose second
+result passes `freshResultB` share no mutable object. -/
+theorem getter_fresh_checked {s : Store} {k1 k2 : Nat} {e1 e2 : Effect} {r1 r2 : ObjId}
+    (hwf : WF s) (hw1 : EffWF s e1) (ha1 : Admissible s (.getter k1) e1)
+    (hr1 : r1 < (s.apply e1).next) (ha2 : Admissible (s.apply e1) (.getter k2) e2)
+    (hc : closedB ((s.apply e1).apply e2) [r2] (reachList ((s.apply e1).apply e2) [r2]) = true)
+    (hf : freshResultB (s.apply e1) e2 r2 = true) :
+    ∀ o, Reach ((s.apply e1).apply e2) [r1] o → Reach ((s.apply e1).apply e2) [r2] o →
+      ((s.apply e1).apply e2).isMut o = false :=
+  getter_fresh hwf hw1 ha1 hr1 ha2 (freshResultB_sound (s.apply e1) e2 r2 hc hf)
+
+/-- list-of-roots version of `sharedMut_nil_sound` (the separation hypothesis of
+`interleaving_static` for a set `B` of several roots) -/
+theorem sharedMutList_nil_sound (s : Store) (as bs : List ObjId)
+    (hca : closedB s as (reachList s as) = true) (hcb : closedB s bs (reachList s bs) = true)
+    (h : ((reachList s as).filter (reachList s bs).contains).filter s.isMut = []) :
+    ∀ o, Reach s as o → Reach s bs o → s.isMut o = false := by
+  intro o ha hb
+  cases hm : s.isMut o with
+  | false => rfl
+  | true =>
+    exfalso
+    have : o ∈ ((reachList s as).filter (reachList s bs).contains).filter s.isMut := by
+      simp only [List.mem_filter]
+      exact ⟨⟨closedB_complete s as _ hca o ha,
+        contains_true_iff.mpr (closedB_complete s bs _ hcb o hb)⟩, hm⟩
+    rw [h] at this
+    simp at this
+
 /-! ### non-vacuity: concrete stores -/
 
 /-- two models A (0 → 1) and B (2 → 3), a shared *immutable* object 4, a caller array 5 -/
@@ -670,12 +781,25 @@ example : (exStore.apply exFit).get 3 = exStore.get 3 :=
     (sharedMut_nil_sound _ [0] 2 (by decide) (by decide) (by decide))
     (Reach.step (Reach.root (List.mem_cons_self ..)) (ob := ⟨true, [.ref 3, .ref 4]⟩) (by decide)
       (by decide))
--- an interleaving eval ; fit A ; eval that satisfies the static conditions with B = {2, 5}
-example : StaticOK [0] exStore [(.fit 0 [] [5], exFit), (.eval 0 [5], exEval), (.plot [0, 5], ⟨[], []⟩)] := by
+/-- an interleaving fit A ; eval ; plot that satisfies the static conditions -/
+theorem exStaticOK :
+    StaticOK [0] exStore [(.fit 0 [] [5], exFit), (.eval 0 [5], exEval), (.plot [0, 5], ⟨[], []⟩)] := by
   refine ⟨admissibleB_sound _ _ _ (by decide), effWFB_sound _ _ (by decide),
     ⟨by decide, noCaptureB_sound _ _ _ (by decide)⟩, ?_⟩
   refine ⟨admissibleB_sound _ _ _ (by decide), effWFB_sound _ _ (by decide), trivial, ?_⟩
   exact ⟨admissibleB_sound _ _ _ (by decide), effWFB_sound _ _ (by decide), trivial, trivial⟩
+-- with B = {2, 5}: A and B share the IMMUTABLE object 4 (so the old hypothesis "nothing reachable from
+-- both" is false here), no mutable one: the hypothesis of `interleaving_static` holds and the theorem
+-- gives the conclusion for B's parameter object 3 and the caller array 5
+example : ¬ (∀ o, Reach exStore [0] o → ¬ Reach exStore [2, 5] o) := by
+  intro h
+  exact h 4 (reachList_sound _ _ _ (by decide)) (reachList_sound _ _ _ (by decide))
+example : (exStore.run [exFit, exEval, ⟨[], []⟩]).get 3 = exStore.get 3 ∧
+    (exStore.run [exFit, exEval, ⟨[], []⟩]).get 5 = exStore.get 5 := by
+  have h := (interleaving_static (fitted := [0]) (rootsB := [2, 5]) _ (wfB_sound _ (by decide))
+    (liveB_sound _ _ (by decide)) (liveB_sound _ _ (by decide))
+    (sharedMutList_nil_sound _ [0] [2, 5] (by decide) (by decide) (by decide)) exStaticOK).1
+  exact ⟨h 3 (reachList_sound _ _ _ (by decide)), h 5 (reachList_sound _ _ _ (by decide))⟩
 -- getter freshness on a concrete pair of results
 example : freshResultB exStore ⟨[], [⟨true, [.ref 7, .ref 4]⟩, ⟨true, [.imm 1]⟩]⟩ 6 = true := by decide
 -- a getter that hands out the pre-existing mutable object 1 is not fresh
